@@ -113,7 +113,8 @@ run_fuzz() {
     [[ $first -eq 1 ]] || echo "," >> "$stats"; first=0
     echo "{\"target\": \"$t\", \"engine\": \"libFuzzer -fork=16, no sanitizer, debug assertions on\", \"seconds\": $secs, \"executions\": $execs, \"final_corpus\": $ncorp, \"nontrivial_corpus_entries\": ${nt:-0}}" >> "$stats"
     # artifacts are re-decoded and re-checked outside libFuzzer: only a reproduced oracle failure counts
-    local arts; arts="$(find "$art" -type f 2>/dev/null | head -n 20)"
+    # slow-unit-* files are libFuzzer's report of inputs that took long on a busy machine, not failures
+    local arts; arts="$(find "$art" -type f ! -name 'slow-unit-*' 2>/dev/null | head -n 20)"
     if [[ -n "$arts" ]]; then
       local rep; rep="$(echo "$arts" | xargs "$HV" fuzz-replay "$t" 2>&1)"
       local mine; mine="$(echo "$rep" | grep -A1 "^FUZZ-VIOLATION property=$ID " | head -n 2)"
